@@ -24,8 +24,9 @@ import ast
 
 from ..lifecycle import Lifecycle
 from ..repo import AnalysisError, own_nodes
-from .common import DISPATCHER, resolve_root
+from .common import DISPATCHER, only_called_from, resolve_root
 from .c12 import dispatcher_reset
+from .roles import dispatcher_roles
 from .c16 import falsy_id_tests
 
 MANIFEST = {
@@ -79,7 +80,7 @@ def run(ctx):
     ]
     # private helpers of the dispatch path are reached through the closure of
     # `dispatch`; they are listed as extra roots only while they exist
-    roots += [m for n in ("_update_tracking_attributes",) if (m := repo.method(disp, n)) is not None]
+    roots += [m for m in disp.methods.values() if m.name.startswith("_") and not m.name.startswith("__") and only_called_from(ctx, m, {repo.need_method(disp, "dispatch")})]
     stop = lambda t: t.cls is not None and obs.qualname in t.cls.mro  # noqa: E731
     n_fn = 0
     for r in roots:
@@ -127,10 +128,11 @@ def run(ctx):
     paths = [p for p in eng.paths(dispatch, disp) if p.outcome != "raise"]
     if not paths:
         raise AnalysisError("dispatch has no accepted path")
+    R = dispatcher_roles(ctx)
     WANT = {
-        "_machine_next_available_time": ("machine_id", "assign"),
-        "_job_next_operation_index": ("job_id", "augassign"),
-        "_job_next_available_time": ("job_id", "assign"),
+        R["mach_free"]: ("machine_id", "assign"),
+        R["job_index"]: ("job_id", "augassign"),
+        R["job_free"]: ("job_id", "assign"),
     }
     bad = False
     for p in paths:
@@ -178,7 +180,25 @@ def run(ctx):
     if not (isinstance(amap.get("operation"), ast.Name) and amap["operation"].id == op_p):
         ok = False
         chk.violation("R02.e", dispatch, c, "the ScheduledOperation is not built for the operation being dispatched", loc=dispatch.loc(c))
-    if not (isinstance(amap.get("machine_id"), ast.Name) and amap["machine_id"].id == mid_p):
+    def requested_machine(e):
+        """the machine parameter, possibly defaulted to the operation's own
+        machine when it is None (as a conditional expression)"""
+        if e is None:
+            return False
+        x = ctx.norm.xexpr(dispatch, e)
+        if isinstance(x, ast.Name) and x.id == mid_p:
+            return True
+        if isinstance(x, ast.IfExp) and isinstance(x.test, ast.Compare) and len(x.test.ops) == 1 and ast.unparse(x.test.left) == mid_p \
+                and ast.unparse(x.test.comparators[0]) == "None":
+            own = f"{op_p}.machine_id"
+            b, o = ast.unparse(x.body), ast.unparse(x.orelse)
+            if isinstance(x.test.ops[0], ast.Is):
+                return b == own and o == mid_p
+            if isinstance(x.test.ops[0], ast.IsNot):
+                return b == mid_p and o == own
+        return False
+
+    if not requested_machine(amap.get("machine_id")):
         ok = False
         chk.violation("R02.e", dispatch, c, "the ScheduledOperation is not built for the requested machine", loc=dispatch.loc(c))
     st = amap.get("start_time")
@@ -189,7 +209,10 @@ def run(ctx):
             st_src = ds[0][1]
     if (
         isinstance(st_src, ast.Call) and isinstance(st_src.func, ast.Attribute) and st_src.func.attr == "start_time"
-        and ast.unparse(st_src.func.value) == "self" and [ast.unparse(a) for a in st_src.args] == [op_p, mid_p]
+        and ast.unparse(st_src.func.value) == "self" and len(st_src.args) + len(st_src.keywords) == 2
+        and ast.unparse((st_src.args + [k.value for k in st_src.keywords if k.arg == "operation"])[0]) == op_p
+        and ctx.norm.xtext(dispatch, (st_src.args[1:2] + [k.value for k in st_src.keywords if k.arg == "machine_id"])[0])
+        == ctx.norm.xtext(dispatch, amap["machine_id"]) and requested_machine(amap.get("machine_id"))
     ):
         if ok:
             chk.ok("R02.e", dispatch.qualname, dispatch.loc(c), "start = self.start_time(operation, machine_id) of the same request")
@@ -286,7 +309,8 @@ def _start_time_shape(ctx, fi):
     if not (isinstance(v, ast.Call) and isinstance(v.func, ast.Name) and v.func.id == "max" and len(v.args) == 2 and not v.keywords):
         raise AnalysisError(f"Dispatcher.start_time: shape not recognised ({ast.unparse(v)[:60]})")
     got = {ast.unparse(expand(a)) for a in v.args}
-    want = {f"self._machine_next_available_time[{mid_p}]", f"self._job_next_available_time[{op_p}.job_id]"}
+    R = dispatcher_roles(ctx)
+    want = {f"self.{R['mach_free']}[{mid_p}]", f"self.{R['job_free']}[{op_p}.job_id]"}
     alt = {f"self.machine_next_available_time[{mid_p}]", f"self.job_next_available_time[{op_p}.job_id]"}
     if got == want or got == alt:
         chk.ok("R02.e", fi.qualname, fi.loc(v), "max(machine next-available, job next-available)")
